@@ -1,4 +1,4 @@
-\* exhaustive (thorough): repaired, all counts 1..4 x 1..4, both namings, depth 11
+\* exhaustive (thorough): repaired, all counts 1..4 x 1..4, both namings, depth 13
 SPECIFICATION Spec
 CHECK_DEADLOCK FALSE
 VIEW view
@@ -9,7 +9,7 @@ CONSTANTS
   MaxT = 4
   Pairs <- AllPairs
   Namings = {"distinct", "same"}
-  MaxOps = 11
+  MaxOps = 13
   HandoffChecksCapacity = TRUE
   ForwardCountedOnce = FALSE
   SourceKeyFromMapping = TRUE
